@@ -1,21 +1,31 @@
 (* C11 — composite: Reload applies the newest config, in place or by full restart.
    Statements only; every proof is `exact <lemma>`.  The model is of the repaired code by default
-   (fix_c11 P = true, /repo 5b52fc2); the legacy test is named explicitly (fix_c11 P = false).
+   (fix_ms P = true: hasMembershipChanged compares name multisets, hooks/fix-c09-membership-multiset.patch);
+   the two earlier tests are named explicitly (fix_ms P = false with fix_c11 P = true: name sets, /repo
+   5b52fc2; with fix_c11 P = false: the original one-sided test).
    [reach P s]: s is reached by some schedule - any pool, any sequence of callback values
    (configurations, nil, errors), any number of concurrent Reload()/Stop() callers. *)
-From Coq Require Import List NArith Bool.
+From Coq Require Import List NArith Bool Permutation.
 From GS Require Import Errs LTS Composite CompositeMon CompositeBase CompositeC10 CompositeC11
      CompositeLocks CompositeLive CompositeProto CompositeTrace CompositeLink2.
 Import ListNotations.
 
 (* C11_membership (pure; ALL entry lists of any length, duplicates included, no hypothesis):
-   the test answers "unchanged" exactly when the two lists have the same length and the same SET of
-   runnable identities *)
+   the test answers "unchanged" exactly when the two lists hold the same runnable identities WITH THEIR
+   MULTIPLICITIES - the name list of the new configuration is a permutation of the old one's.  For
+   duplicate-free lists this is "the same set of identities" (the property's wording); a configuration
+   that lists a runnable twice is a multiset, and [a;a;b] -> [a;b;b] (same set) is a change. *)
 Theorem C11_membership : forall P old new,
-  fix_c11 P = true ->
-  (membership_changed P old new = false <->
-   length old = length new /\ forall x, In x (names P old) <-> In x (names P new)).
-Proof. exact membership_fixed. Qed.
+  fix_ms P = true ->
+  (membership_changed P old new = false <-> Permutation (names P old) (names P new)).
+Proof. exact membership_multiset. Qed.
+
+(* every repaired variant: "unchanged" implies same length and same name set *)
+Theorem C11_membership_unchanged_same_set : forall P old new,
+  fix_ms P = true \/ fix_c11 P = true ->
+  membership_changed P old new = false ->
+  length old = length new /\ forall x, In x (names P old) <-> In x (names P new).
+Proof. exact membership_false_len_set. Qed.
 
 (* C11_in_place: a Reload() that found the identity set unchanged and has returned made exactly one
    ReloadWithConfig(its new config) call (Reload() for a child without that method, nothing for a
@@ -40,6 +50,21 @@ Theorem C11_restart : forall P s k r,
    map w_child (wof (ORel k) s) = map fst (rev (r_old r)) /\
    map k_child (kof (ORel k) s) = map fst (r_new r)).
 Proof. exact restart_reload. Qed.
+
+(* C11_restart by program counter (audit-2 M7): the same facts indexed by how far the Reload() has got, so
+   that they also speak about a restart to the EMPTY configuration (no child is ever started there):
+   once its stopAllRunnables has created the Stop workers they are exactly the entries of the old
+   configuration, last entry first (creation order; the Stop() calls run concurrently); once wg.Wait() has
+   returned every one of those Stop() calls has returned; the children it has launched are none before its
+   boot and exactly the new configuration, in order, after it *)
+Theorem C11_restart_by_pc : forall P s k r,
+  reach P s -> nth_error (reloaders s) k = Some r -> r_path r = PRestart ->
+  (spawned (r_pc r) = true -> map w_child (wof (ORel k) s) = map fst (rev (r_old r))) /\
+  (spawned (r_pc r) = false -> wof (ORel k) s = []) /\
+  (stopped (r_pc r) = true -> forallb wdone (wof (ORel k) s) = true) /\
+  (launched (r_pc r) = true -> map k_child (kof (ORel k) s) = map fst (r_new r)) /\
+  (launched (r_pc r) = false -> kof (ORel k) s = []).
+Proof. exact restart_reload_pc. Qed.
 
 (* C11_newest: whenever no Reload() is inside its critical section - in particular after every
    Reload() has returned, also with concurrent callers - the stored configuration is the value most
@@ -67,23 +92,37 @@ Theorem C11_failed_callback_step : forall P s k r s',
   /\ option_map r_calls (nth_error (reloaders s') k) = option_map r_calls (nth_error (reloaders s) k).
 Proof. exact failed_callback_step. Qed.
 
-(* LEGACY variant (fix_c11 P = false, the code before /repo 5b52fc2) *)
+(* LEGACY variant 2 (fix_ms P = false, fix_c11 P = true: /repo 5b52fc2 .. before the multiset repair):
+   same length and same name SET - refuted as a membership test on [a;a;b] -> [a;b;b] *)
+Theorem C11_membership_set_legacy : forall P old new,
+  fix_ms P = false -> fix_c11 P = true ->
+  (membership_changed P old new = false <->
+   length old = length new /\ forall x, In x (names P old) <-> In x (names P new)).
+Proof. exact membership_fixed. Qed.
+
+Theorem C11_membership_set_refuted_legacy :
+  membership_changed (ms_pool false) ms_old ms_new = false /\
+  membership_changed (ms_pool true) ms_old ms_new = true /\
+  ~ Permutation (names (ms_pool false) ms_old) (names (ms_pool false) ms_new).
+Proof. exact membership_set_refuted. Qed.
+
+(* LEGACY variant 1 (fix_ms P = false, fix_c11 P = false, the code before /repo 5b52fc2) *)
 Theorem C11_membership_legacy : forall P old new,
-  fix_c11 P = false ->
+  fix_ms P = false -> fix_c11 P = false ->
   (membership_changed P old new = false <->
    length old = length new /\ incl (names P new) (names P old)).
 Proof. exact membership_unfixed. Qed.
 
 Theorem C11_membership_legacy_nodup : forall P old new,
-  fix_c11 P = false -> NoDup (names P old) -> NoDup (names P new) ->
+  fix_ms P = false -> fix_c11 P = false -> NoDup (names P old) -> NoDup (names P new) ->
   (membership_changed P old new = false <->
    forall x, In x (names P old) <-> In x (names P new)).
 Proof. exact membership_nodup. Qed.
 
 Theorem C11_membership_refuted_legacy : exists P old new,
-  fix_c11 P = false /\ membership_changed P old new = false /\
+  fix_ms P = false /\ fix_c11 P = false /\ membership_changed P old new = false /\
   ~ (forall x, In x (names P old) <-> In x (names P new)).
-Proof. exists dup_pool, dup_old, dup_new. split; [reflexivity|]. exact membership_dup_refuted. Qed.
+Proof. exists dup_pool, dup_old, dup_new. split; [reflexivity|]. split; [reflexivity|]. exact membership_dup_refuted. Qed.
 
 Theorem C11_accepted_traces_are_model_traces : forall P fuel tr s,
   In s (fst (accept P fuel tr)) ->
@@ -93,9 +132,13 @@ Proof. exact accept_sound. Qed.
 Print Assumptions C11_membership.
 Print Assumptions C11_in_place.
 Print Assumptions C11_restart.
+Print Assumptions C11_restart_by_pc.
 Print Assumptions C11_newest.
 Print Assumptions C11_failed_callback.
 Print Assumptions C11_failed_callback_step.
+Print Assumptions C11_membership_unchanged_same_set.
+Print Assumptions C11_membership_set_legacy.
+Print Assumptions C11_membership_set_refuted_legacy.
 Print Assumptions C11_membership_legacy.
 Print Assumptions C11_membership_legacy_nodup.
 Print Assumptions C11_membership_refuted_legacy.
@@ -104,14 +147,18 @@ Print Assumptions C11_accepted_traces_are_model_traces.
 (* non-vacuity *)
 Definition ex_pool : params :=
   mkParams [mkSpec 7 UntilRunDone OnSignal RWC; mkSpec 8 NonBlocking OnSignal RPlain;
-            mkSpec 9 UntilRunDone OnSignal RNone] true true true true.
+            mkSpec 9 UntilRunDone OnSignal RNone] true true true true true.
 
 Example C11_nonvacuous_membership :
   membership_changed ex_pool [(0, 1); (1, 2); (2, 3)]%N [(2, 0); (0, 5); (1, 5)]%N = false /\
   membership_changed ex_pool [(0, 1); (1, 2)]%N [(2, 0); (0, 5)]%N = true /\
   membership_changed ex_pool [(0, 1); (1, 2)]%N [(0, 5)]%N = true /\
   (* the former witness: old [a;b], new [a;a] is now a change *)
-  membership_changed ex_pool [(0, 0); (1, 0)]%N [(0, 1); (0, 2)]%N = true.
+  membership_changed ex_pool [(0, 0); (1, 0)]%N [(0, 1); (0, 2)]%N = true /\
+  (* and so is old [a;a;b], new [a;b;b] (same length, same name set): hypothesis of C11_membership *)
+  fix_ms ex_pool = true /\
+  membership_changed ex_pool [(0, 0); (0, 0); (1, 0)]%N [(0, 1); (1, 1); (1, 1)]%N = true /\
+  membership_changed ex_pool [(0, 0); (0, 0); (1, 0)]%N [(1, 1); (0, 1); (0, 2)]%N = false.
 Proof. repeat split; reflexivity. Qed.
 
 (* an in-place reload, a restart reload and a failed reload as one schedule of the model *)
@@ -203,3 +250,19 @@ Example C11_monitor_clause13_needs_sequential : exists s,
   run (step ex_pool) init overlap_sched = Some s /\
   C11_holdsb ex_pool (obs_trace obs overlap_sched) = 13%N.
 Proof. eexists. split; vm_compute; reflexivity. Qed.
+
+(* all hypotheses of C11_restart_by_pc on a restart to the EMPTY configuration: [a] -> []; the old child has
+   been stopped and has finished, nothing is started, the composite is Running with no child *)
+Definition ex_empty_sched : list label :=
+  [LRunCall; LRunBegin; LBootLock ORun; LCb ORun (CbSome [(0, 0)]%N); LBootLaunch ORun; LToRunning; LKRun 0 0%N;
+   LReloadCall 0; LRlLock 0; LCb (ORel 0) (CbSome []);
+   LStopBegin (ORel 0); LWCall 0 0%N; LKExit 0 0%N None; LWUnblock 0; LWRet 0 0%N;
+   LStopCancel (ORel 0); LStopJoin (ORel 0); LRlSetCfg 0; LBootLock (ORel 0); LBootLaunch (ORel 0); LRlFinish 0; LRlRet 0].
+
+Example C11_restart_to_empty_nonvacuous : exists s r,
+  run (step ex_pool) init ex_empty_sched = Some s /\ nth_error (reloaders s) 0 = Some r /\
+  r_path r = PRestart /\ r_pc r = RDone /\ stopped (r_pc r) = true /\ launched (r_pc r) = true /\
+  r_old r = [(0, 0)]%N /\ r_new r = [] /\
+  map w_child (wof (ORel 0) s) = [0%N] /\ forallb wdone (wof (ORel 0) s) = true /\ kof (ORel 0) s = [] /\
+  forallb kdone (kids s) = true /\ fsm s = FRunning /\ cfg s = Some [] /\ gen s = 2.
+Proof. eexists. eexists. split; [vm_compute; reflexivity|]. vm_compute. repeat split. Qed.
